@@ -43,14 +43,19 @@ pub fn registry() -> Vec<PartEntry> {
     use props::*;
     vec![
         part!("C01", uni::C01Uni),
+        part!("C01", chanfree::C01Free),
         part!("C02", containers::Rings),
         part!("C02", uni::C02Uni),
         part!("C02", free::RingsFree),
+        part!("C02", chanfree::C02Free),
         part!("C03", uni::C03Multi),
+        part!("C03", chanfree::C03Free),
         part!("C04", uni::C04Uni),
         part!("C04", uni::C04Multi),
+        part!("C04", chanfree::C04Free),
         part!("C05", life::C05Sched),
         part!("C05", seq::C05Seq),
+        part!("C05", chanfree::C05Free),
         part!("C06", life::C06EndAll),
         part!("C06", rtchan::C06Uni),
         part!("C06", rtchan::C06Multi),
